@@ -77,6 +77,9 @@ def render_models(sig, names, app):
         if ms.get('idx'):
             parts = []
             for ix in ms['idx']:
+                if ix.get('expr', NONE) not in (NONE, None):
+                    parts.append('models.Index(models.F(%r), name=%r)' % (names.field(ix['expr']), ix['name']))
+                    continue
                 kw = 'fields=%r' % [names.field(x) for x in ix['fields']]
                 if ix.get('name', NONE) != NONE:
                     kw += ', name=%r' % ix['name']
@@ -168,6 +171,9 @@ def render_mutation(mu, names, palette=None):
         if mu['prop'] == 'indexes':
             parts = []
             for ix in mu['ival']:
+                if ix.get('expr', NONE) not in (NONE, None):
+                    parts.append("{'expressions': [models.F(%r)], 'name': %r}" % (names.field(ix['expr']), ix['name']))
+                    continue
                 d = "{'fields': %r" % [names.field(x) for x in ix['fields']]
                 if ix.get('name', NONE) != NONE:
                     d += ", 'name': %r" % ix['name']
